@@ -8,13 +8,20 @@ import excs
 WORDS = ['true', 'false', 'abc', ' True ', '', 'x1', 'True']
 
 
+# parameter names are inputs: besides p1..p9 the names the implementation (or Python convention) treats specially, spelled
+# exactly like its own variables (`args` / `kwargs` WITHOUT star in particular)
+SPECIAL_NAMES = {0: 'self', 10: 'args', 11: 'kwargs', 12: 'cls', 13: 'result', 14: 'func', 15: 'parameters', 16: 'k', 17: 'value',
+                 18: 'signature'}
+SPECIAL_CODES = {v: k for k, v in SPECIAL_NAMES.items()}
+
+
 def pname(n):
-    return 'self' if n == 0 else 'p%d' % n
+    return SPECIAL_NAMES.get(n) or 'p%d' % n
 
 
 def ncode(s):
-    if s == 'self':
-        return 0
+    if s in SPECIAL_CODES:
+        return SPECIAL_CODES[s]
     if isinstance(s, str) and s[:1] == 'p' and s[1:].isdigit():
         return int(s[1:])
     return -1
